@@ -713,6 +713,22 @@ func (h *harness) runShapes(t *testing.T) {
 		{"map-of-slice-of-slice-of-struct", func(k reflect.Kind) *fieldD {
 			return &fieldD{Kind: reflect.Map, Elem: &fieldD{Kind: reflect.Slice, Elem: &fieldD{Kind: reflect.Slice, Elem: &fieldD{Kind: reflect.Struct, Sub: sub()}}}}
 		}},
+		// maps nested in maps / lists, a map that is not keyed by strings
+		{"map-of-map", func(k reflect.Kind) *fieldD {
+			return &fieldD{Kind: reflect.Map, Elem: &fieldD{Kind: reflect.Map, Elem: &fieldD{Kind: k}}}
+		}},
+		{"slice-of-map", func(k reflect.Kind) *fieldD {
+			return &fieldD{Kind: reflect.Slice, Elem: &fieldD{Kind: reflect.Map, Elem: &fieldD{Kind: k}}}
+		}},
+		{"map-of-map-of-struct", func(k reflect.Kind) *fieldD {
+			return &fieldD{Kind: reflect.Map, Elem: &fieldD{Kind: reflect.Map, Elem: &fieldD{Kind: reflect.Struct, Sub: sub()}}}
+		}},
+		{"map-of-ptr-to-map", func(k reflect.Kind) *fieldD {
+			return &fieldD{Kind: reflect.Map, Elem: &fieldD{Kind: reflect.Map, Ptr: 1, Elem: &fieldD{Kind: k}}}
+		}},
+		{"map-int-key", func(k reflect.Kind) *fieldD {
+			return &fieldD{Kind: reflect.Map, IntKey: true, Elem: &fieldD{Kind: k}}
+		}},
 		{"embedded-ptr", func(k reflect.Kind) *fieldD {
 			return &fieldD{Kind: reflect.Struct, Ptr: 1, Embedded: true, NoTag: true, Sub: sub()}
 		}},
@@ -743,10 +759,27 @@ func (h *harness) runShapes(t *testing.T) {
 						continue
 					}
 					sd := &structD{Fields: []*fieldD{f, {GoName: "Z", Src: "json", Key: "z", Kind: reflect.Int, Opt: optPlain}}}
-					for i := 0; i < 5; i++ {
+					for i := 0; i < 7; i++ {
 						ig := &inputGen{r: c.R, e: e}
 						tree := ig.validTree(sd, e, 0)
 						switch {
+						case i >= 5:
+							// a null / a wrongly shaped member inside the list or map
+							var bad any
+							if i == 6 {
+								bad = kit.Choose(c.R, []any{json.Number("5"), "x", true, []any{}, map[string]any{}})
+							} else if e.NoNull {
+								continue
+							}
+							switch cur := tree["a"].(type) {
+							case []any:
+								tree["a"] = append(append([]any{}, cur...), bad)
+							case map[string]any:
+								cur["mbad"] = bad
+							default:
+								continue
+							}
+							ig.note(f, map[bool]string{true: "->null-member", false: "->misshaped-member"}[i == 5])
 						case i == 3:
 							var slots []slot
 							collectSlots(sd.Fields, e.Ctx, tree, &slots)
@@ -1020,6 +1053,11 @@ func TestVerifC08(t *testing.T) {
 	h.runNumShapes(t)
 	h.runSepVals(t)
 	h.runInherit(t, kit.N(1500, 30000))
+	h.runHTTPWire(t, kit.N(2500, 40000))
+	h.runConfLoad(t, kit.N(1200, 20000))
+	h.runBadTags(t)
+	h.runDamagedEntries(t, kit.N(1400, 20000))
+	h.runTopLevel(t, kit.N(900, 15000))
 	kit.Obs("inputs_written_to_disk_before_the_call", h.fc.writes)
 	kit.End()
 }
